@@ -1861,7 +1861,7 @@ func (f *Frame) adoptFresh(c *Contract, rn []string, results []Val, in ssa.Instr
 		if i < len(rn) {
 			name = rn[i]
 		}
-		if !containsStr(c.Fresh, name) && !containsStr(c.Fresh, fmt.Sprintf("result%d", i)) {
+		if !containsStr(c.Fresh, name) && !containsStr(c.Fresh, fmt.Sprintf("result%d", i)) && !(len(results) == 1 && containsStr(c.Fresh, "result")) {
 			continue
 		}
 		if r.K != VRef || pointee0(r.Typ) == nil {
@@ -1881,6 +1881,7 @@ func (f *Frame) adoptFresh(c *Contract, rn []string, results []Val, in ssa.Instr
 			continue
 		}
 		ai := &allocInfo{mk: holder, typ: r.Typ, ref: r.T}
+		f.tr.ownRefs = append(f.tr.ownRefs, r.T)
 		f.escapeWalk(ai, holder, map[ssa.Value]bool{})
 		f.allocL = append(f.allocL, ai)
 		// a fresh object is distinct from every object known so far
